@@ -71,10 +71,10 @@ variable {K : Type} [Field K] [LinearOrder K] [IsStrictOrderedRing K]
 end Gen
 
 /-- evaluation at K = ℚ for the correspondence driver -/
-def Gen.dispatchArea (tbl : FnTable) (name : String) (args : List ℚ) : Option (List ℚ) :=
-  match name, args with
-  | "line_area", [a0, a1, a2, a3] => some (Gen.line_area a0 a1 a2 a3)
-  | "quad_area", [a0, a1, a2, a3, a4, a5] => some (Gen.quad_area a0 a1 a2 a3 a4 a5)
-  | "cubic_area", [a0, a1, a2, a3, a4, a5, a6, a7] => some (Gen.cubic_area a0 a1 a2 a3 a4 a5 a6 a7)
-  | "quad_toCubicBezier", [a0, a1, a2, a3, a4, a5] => some (Gen.quad_toCubicBezier a0 a1 a2 a3 a4 a5)
-  | _, _ => none
+def Gen.dispatchArea (tbl : FnTable) (name : String) (a : List ℚ) : Option (List ℚ) :=
+  match name with
+  | "line_area" => if a.length = 4 then some (Gen.line_area (a.getD 0 0) (a.getD 1 0) (a.getD 2 0) (a.getD 3 0)) else none
+  | "quad_area" => if a.length = 6 then some (Gen.quad_area (a.getD 0 0) (a.getD 1 0) (a.getD 2 0) (a.getD 3 0) (a.getD 4 0) (a.getD 5 0)) else none
+  | "cubic_area" => if a.length = 8 then some (Gen.cubic_area (a.getD 0 0) (a.getD 1 0) (a.getD 2 0) (a.getD 3 0) (a.getD 4 0) (a.getD 5 0) (a.getD 6 0) (a.getD 7 0)) else none
+  | "quad_toCubicBezier" => if a.length = 6 then some (Gen.quad_toCubicBezier (a.getD 0 0) (a.getD 1 0) (a.getD 2 0) (a.getD 3 0) (a.getD 4 0) (a.getD 5 0)) else none
+  | _ => none
